@@ -107,6 +107,26 @@ macro_rules! direct_read {
     };
 }
 
+/// A reader factory over a model stream: every reader is a fresh cursor on the same bits.
+pub struct MsFactory<E: En> {
+    pub ms: MS<E, true>,
+}
+macro_rules! impl_factory {
+    ($e:ty) => {
+        impl CodesReaderFactory<$e> for MsFactory<$e> {
+            type CodesReader<'a>
+                = MS<$e, true>
+            where
+                Self: 'a;
+            fn new_reader(&self) -> MS<$e, true> {
+                self.ms.clone()
+            }
+        }
+    };
+}
+impl_factory!(BE);
+impl_factory!(LE);
+
 #[inline(always)]
 fn ok_or_forget<T>(r: anyhow::Result<T>) -> Option<T> {
     match r {
@@ -159,7 +179,7 @@ macro_rules! compare {
 }
 
 macro_rules! c10_bodies {
-    ($e:ty, $const_code:ident, $codes:ident, $codes_sym:ident, $func:ident, $func_rej:ident) => {
+    ($e:ty, $const_code:ident, $codes:ident, $codes_sym:ident, $func:ident, $func_rej:ident, $factory:ident) => {
         /// compile-time constants: ConstCode<ID> through its inherent methods, the Static* traits and CodeLen
         pub fn $const_code<S: Src, const ID: usize, const FAM: u8, const K: usize>(s: &mut S) {
             compare!(s, $e, FAM, K,
@@ -218,6 +238,32 @@ macro_rules! c10_bodies {
                 |r| fr.read(r).unwrap(),
                 |v| fl.len(v));
         }
+        /// reader factories: FactoryFuncCodeReader::new(code), through get() and inner()
+        pub fn $factory<S: Src, const FAM: u8, const K: usize>(s: &mut S) {
+            let code = codes_from(FAM, K);
+            let fr = ok_or_forget(FactoryFuncCodeReader::<$e, MsFactory<$e>>::new(code));
+            assert!(fr.is_some(), "supported code rejected by the factory dispatcher");
+            let fr = fr.unwrap();
+            let v = s.u64();
+            s.assume(dom(FAM, K, v));
+            let off = s.usize_in(0, 8);
+            let mut ms = MS::<$e, true>::new();
+            ms.write_bits(s.u64(), off).unwrap();
+            let _ = direct_write!(ms, FAM, K, v);
+            ms.write_bits(s.u64(), 64).unwrap();
+            ms.rpos = off;
+            let factory = MsFactory::<$e> { ms };
+            let mut r1 = factory.new_reader();
+            let mut r2 = factory.new_reader();
+            let mut r3 = factory.new_reader();
+            let x = fr.get().read(&mut r1).unwrap();
+            let z = (fr.inner())(&mut r2).unwrap();
+            let y: u64 = direct_read!(r3, FAM, K);
+            assert!(x == y && z == y, "factory dispatcher read returns a different value than the code's own method");
+            assert!(r1.rpos == r3.rpos && r2.rpos == r3.rpos, "factory dispatcher read consumes a different number of bits");
+            assert_eq!(x, v, "reading with the factory dispatcher what the direct method wrote must return the value");
+            crate::cover!(s, v > 100, "large value");
+        }
         /// parameters without a function-pointer entry are rejected, not mapped to some other code
         pub fn $func_rej<S: Src, const FAM: u8, const K: usize>(s: &mut S) {
             let code = codes_from(FAM, K);
@@ -229,8 +275,8 @@ macro_rules! c10_bodies {
         }
     };
 }
-c10_bodies!(BE, const_code_be, codes_be, codes_sym_be, func_be, func_rej_be);
-c10_bodies!(LE, const_code_le, codes_le, codes_sym_le, func_le, func_rej_le);
+c10_bodies!(BE, const_code_be, codes_be, codes_sym_be, func_be, func_rej_be, factory_be);
+c10_bodies!(LE, const_code_le, codes_le, codes_sym_le, func_le, func_rej_le, factory_le);
 
 crate::harnesses! {
     #[kani::unwind(12)]
@@ -1001,4 +1047,594 @@ crate::harnesses! {
     #[kani::stub(std::string::ToString::to_string, stub_to_string)]
     #[kani::stub(std::backtrace::Backtrace::capture, stub_backtrace_capture)]
     c10_func_rej_rice11_be (quick, "FuncCodeWriter/Reader/Len::new(Codes::Rice param 11)", "unsupported parameter must be rejected") => func_rej_be::<_, {RICE}, 11>;
+    #[kani::stub(alloc::fmt::format, stub_format)]
+    #[kani::stub(std::string::ToString::to_string, stub_to_string)]
+    #[kani::stub(std::backtrace::Backtrace::capture, stub_backtrace_capture)]
+    #[kani::unwind(12)]
+    c10_factory_unary0_be (quick, "FactoryFuncCodeReader::new(Codes::Unary param 0) over a reader factory, BE stream", "get() and inner() vs the code own method; symbolic value") => factory_be::<_, {UNARY}, 0>;
+    #[kani::stub(alloc::fmt::format, stub_format)]
+    #[kani::stub(std::string::ToString::to_string, stub_to_string)]
+    #[kani::stub(std::backtrace::Backtrace::capture, stub_backtrace_capture)]
+    #[kani::unwind(12)]
+    c10_factory_unary0_le (thorough, "FactoryFuncCodeReader::new(Codes::Unary param 0) over a reader factory, LE stream", "get() and inner() vs the code own method; symbolic value") => factory_le::<_, {UNARY}, 0>;
+    #[kani::stub(alloc::fmt::format, stub_format)]
+    #[kani::stub(std::string::ToString::to_string, stub_to_string)]
+    #[kani::stub(std::backtrace::Backtrace::capture, stub_backtrace_capture)]
+    #[kani::unwind(12)]
+    c10_factory_gamma0_be (quick, "FactoryFuncCodeReader::new(Codes::Gamma param 0) over a reader factory, BE stream", "get() and inner() vs the code own method; symbolic value") => factory_be::<_, {GAMMA}, 0>;
+    #[kani::stub(alloc::fmt::format, stub_format)]
+    #[kani::stub(std::string::ToString::to_string, stub_to_string)]
+    #[kani::stub(std::backtrace::Backtrace::capture, stub_backtrace_capture)]
+    #[kani::unwind(12)]
+    c10_factory_gamma0_le (thorough, "FactoryFuncCodeReader::new(Codes::Gamma param 0) over a reader factory, LE stream", "get() and inner() vs the code own method; symbolic value") => factory_le::<_, {GAMMA}, 0>;
+    #[kani::stub(alloc::fmt::format, stub_format)]
+    #[kani::stub(std::string::ToString::to_string, stub_to_string)]
+    #[kani::stub(std::backtrace::Backtrace::capture, stub_backtrace_capture)]
+    #[kani::unwind(12)]
+    c10_factory_delta0_be (quick, "FactoryFuncCodeReader::new(Codes::Delta param 0) over a reader factory, BE stream", "get() and inner() vs the code own method; symbolic value") => factory_be::<_, {DELTA}, 0>;
+    #[kani::stub(alloc::fmt::format, stub_format)]
+    #[kani::stub(std::string::ToString::to_string, stub_to_string)]
+    #[kani::stub(std::backtrace::Backtrace::capture, stub_backtrace_capture)]
+    #[kani::unwind(12)]
+    c10_factory_delta0_le (thorough, "FactoryFuncCodeReader::new(Codes::Delta param 0) over a reader factory, LE stream", "get() and inner() vs the code own method; symbolic value") => factory_le::<_, {DELTA}, 0>;
+    #[kani::stub(alloc::fmt::format, stub_format)]
+    #[kani::stub(std::string::ToString::to_string, stub_to_string)]
+    #[kani::stub(std::backtrace::Backtrace::capture, stub_backtrace_capture)]
+    #[kani::unwind(12)]
+    c10_factory_omega0_be (thorough, "FactoryFuncCodeReader::new(Codes::Omega param 0) over a reader factory, BE stream", "get() and inner() vs the code own method; symbolic value") => factory_be::<_, {OMEGA}, 0>;
+    #[kani::stub(alloc::fmt::format, stub_format)]
+    #[kani::stub(std::string::ToString::to_string, stub_to_string)]
+    #[kani::stub(std::backtrace::Backtrace::capture, stub_backtrace_capture)]
+    #[kani::unwind(12)]
+    c10_factory_omega0_le (thorough, "FactoryFuncCodeReader::new(Codes::Omega param 0) over a reader factory, LE stream", "get() and inner() vs the code own method; symbolic value") => factory_le::<_, {OMEGA}, 0>;
+    #[kani::stub(alloc::fmt::format, stub_format)]
+    #[kani::stub(std::string::ToString::to_string, stub_to_string)]
+    #[kani::stub(std::backtrace::Backtrace::capture, stub_backtrace_capture)]
+    #[kani::unwind(12)]
+    c10_factory_vbyte_be0_be (thorough, "FactoryFuncCodeReader::new(Codes::VbyteBe param 0) over a reader factory, BE stream", "get() and inner() vs the code own method; symbolic value") => factory_be::<_, {VBYTE_BE}, 0>;
+    #[kani::stub(alloc::fmt::format, stub_format)]
+    #[kani::stub(std::string::ToString::to_string, stub_to_string)]
+    #[kani::stub(std::backtrace::Backtrace::capture, stub_backtrace_capture)]
+    #[kani::unwind(12)]
+    c10_factory_vbyte_be0_le (thorough, "FactoryFuncCodeReader::new(Codes::VbyteBe param 0) over a reader factory, LE stream", "get() and inner() vs the code own method; symbolic value") => factory_le::<_, {VBYTE_BE}, 0>;
+    #[kani::stub(alloc::fmt::format, stub_format)]
+    #[kani::stub(std::string::ToString::to_string, stub_to_string)]
+    #[kani::stub(std::backtrace::Backtrace::capture, stub_backtrace_capture)]
+    #[kani::unwind(12)]
+    c10_factory_vbyte_le0_be (quick, "FactoryFuncCodeReader::new(Codes::VbyteLe param 0) over a reader factory, BE stream", "get() and inner() vs the code own method; symbolic value") => factory_be::<_, {VBYTE_LE}, 0>;
+    #[kani::stub(alloc::fmt::format, stub_format)]
+    #[kani::stub(std::string::ToString::to_string, stub_to_string)]
+    #[kani::stub(std::backtrace::Backtrace::capture, stub_backtrace_capture)]
+    #[kani::unwind(12)]
+    c10_factory_vbyte_le0_le (thorough, "FactoryFuncCodeReader::new(Codes::VbyteLe param 0) over a reader factory, LE stream", "get() and inner() vs the code own method; symbolic value") => factory_le::<_, {VBYTE_LE}, 0>;
+    #[kani::stub(alloc::fmt::format, stub_format)]
+    #[kani::stub(std::string::ToString::to_string, stub_to_string)]
+    #[kani::stub(std::backtrace::Backtrace::capture, stub_backtrace_capture)]
+    #[kani::unwind(12)]
+    c10_factory_zeta1_be (quick, "FactoryFuncCodeReader::new(Codes::Zeta param 1) over a reader factory, BE stream", "get() and inner() vs the code own method; symbolic value") => factory_be::<_, {ZETA}, 1>;
+    #[kani::stub(alloc::fmt::format, stub_format)]
+    #[kani::stub(std::string::ToString::to_string, stub_to_string)]
+    #[kani::stub(std::backtrace::Backtrace::capture, stub_backtrace_capture)]
+    #[kani::unwind(12)]
+    c10_factory_zeta1_le (thorough, "FactoryFuncCodeReader::new(Codes::Zeta param 1) over a reader factory, LE stream", "get() and inner() vs the code own method; symbolic value") => factory_le::<_, {ZETA}, 1>;
+    #[kani::stub(alloc::fmt::format, stub_format)]
+    #[kani::stub(std::string::ToString::to_string, stub_to_string)]
+    #[kani::stub(std::backtrace::Backtrace::capture, stub_backtrace_capture)]
+    #[kani::unwind(12)]
+    c10_factory_zeta2_be (thorough, "FactoryFuncCodeReader::new(Codes::Zeta param 2) over a reader factory, BE stream", "get() and inner() vs the code own method; symbolic value") => factory_be::<_, {ZETA}, 2>;
+    #[kani::stub(alloc::fmt::format, stub_format)]
+    #[kani::stub(std::string::ToString::to_string, stub_to_string)]
+    #[kani::stub(std::backtrace::Backtrace::capture, stub_backtrace_capture)]
+    #[kani::unwind(12)]
+    c10_factory_zeta2_le (thorough, "FactoryFuncCodeReader::new(Codes::Zeta param 2) over a reader factory, LE stream", "get() and inner() vs the code own method; symbolic value") => factory_le::<_, {ZETA}, 2>;
+    #[kani::stub(alloc::fmt::format, stub_format)]
+    #[kani::stub(std::string::ToString::to_string, stub_to_string)]
+    #[kani::stub(std::backtrace::Backtrace::capture, stub_backtrace_capture)]
+    #[kani::unwind(12)]
+    c10_factory_zeta3_be (quick, "FactoryFuncCodeReader::new(Codes::Zeta param 3) over a reader factory, BE stream", "get() and inner() vs the code own method; symbolic value") => factory_be::<_, {ZETA}, 3>;
+    #[kani::stub(alloc::fmt::format, stub_format)]
+    #[kani::stub(std::string::ToString::to_string, stub_to_string)]
+    #[kani::stub(std::backtrace::Backtrace::capture, stub_backtrace_capture)]
+    #[kani::unwind(12)]
+    c10_factory_zeta3_le (thorough, "FactoryFuncCodeReader::new(Codes::Zeta param 3) over a reader factory, LE stream", "get() and inner() vs the code own method; symbolic value") => factory_le::<_, {ZETA}, 3>;
+    #[kani::stub(alloc::fmt::format, stub_format)]
+    #[kani::stub(std::string::ToString::to_string, stub_to_string)]
+    #[kani::stub(std::backtrace::Backtrace::capture, stub_backtrace_capture)]
+    #[kani::unwind(12)]
+    c10_factory_zeta4_be (thorough, "FactoryFuncCodeReader::new(Codes::Zeta param 4) over a reader factory, BE stream", "get() and inner() vs the code own method; symbolic value") => factory_be::<_, {ZETA}, 4>;
+    #[kani::stub(alloc::fmt::format, stub_format)]
+    #[kani::stub(std::string::ToString::to_string, stub_to_string)]
+    #[kani::stub(std::backtrace::Backtrace::capture, stub_backtrace_capture)]
+    #[kani::unwind(12)]
+    c10_factory_zeta4_le (thorough, "FactoryFuncCodeReader::new(Codes::Zeta param 4) over a reader factory, LE stream", "get() and inner() vs the code own method; symbolic value") => factory_le::<_, {ZETA}, 4>;
+    #[kani::stub(alloc::fmt::format, stub_format)]
+    #[kani::stub(std::string::ToString::to_string, stub_to_string)]
+    #[kani::stub(std::backtrace::Backtrace::capture, stub_backtrace_capture)]
+    #[kani::unwind(12)]
+    c10_factory_zeta5_be (thorough, "FactoryFuncCodeReader::new(Codes::Zeta param 5) over a reader factory, BE stream", "get() and inner() vs the code own method; symbolic value") => factory_be::<_, {ZETA}, 5>;
+    #[kani::stub(alloc::fmt::format, stub_format)]
+    #[kani::stub(std::string::ToString::to_string, stub_to_string)]
+    #[kani::stub(std::backtrace::Backtrace::capture, stub_backtrace_capture)]
+    #[kani::unwind(12)]
+    c10_factory_zeta5_le (thorough, "FactoryFuncCodeReader::new(Codes::Zeta param 5) over a reader factory, LE stream", "get() and inner() vs the code own method; symbolic value") => factory_le::<_, {ZETA}, 5>;
+    #[kani::stub(alloc::fmt::format, stub_format)]
+    #[kani::stub(std::string::ToString::to_string, stub_to_string)]
+    #[kani::stub(std::backtrace::Backtrace::capture, stub_backtrace_capture)]
+    #[kani::unwind(12)]
+    c10_factory_zeta6_be (thorough, "FactoryFuncCodeReader::new(Codes::Zeta param 6) over a reader factory, BE stream", "get() and inner() vs the code own method; symbolic value") => factory_be::<_, {ZETA}, 6>;
+    #[kani::stub(alloc::fmt::format, stub_format)]
+    #[kani::stub(std::string::ToString::to_string, stub_to_string)]
+    #[kani::stub(std::backtrace::Backtrace::capture, stub_backtrace_capture)]
+    #[kani::unwind(12)]
+    c10_factory_zeta6_le (thorough, "FactoryFuncCodeReader::new(Codes::Zeta param 6) over a reader factory, LE stream", "get() and inner() vs the code own method; symbolic value") => factory_le::<_, {ZETA}, 6>;
+    #[kani::stub(alloc::fmt::format, stub_format)]
+    #[kani::stub(std::string::ToString::to_string, stub_to_string)]
+    #[kani::stub(std::backtrace::Backtrace::capture, stub_backtrace_capture)]
+    #[kani::unwind(12)]
+    c10_factory_zeta7_be (thorough, "FactoryFuncCodeReader::new(Codes::Zeta param 7) over a reader factory, BE stream", "get() and inner() vs the code own method; symbolic value") => factory_be::<_, {ZETA}, 7>;
+    #[kani::stub(alloc::fmt::format, stub_format)]
+    #[kani::stub(std::string::ToString::to_string, stub_to_string)]
+    #[kani::stub(std::backtrace::Backtrace::capture, stub_backtrace_capture)]
+    #[kani::unwind(12)]
+    c10_factory_zeta7_le (thorough, "FactoryFuncCodeReader::new(Codes::Zeta param 7) over a reader factory, LE stream", "get() and inner() vs the code own method; symbolic value") => factory_le::<_, {ZETA}, 7>;
+    #[kani::stub(alloc::fmt::format, stub_format)]
+    #[kani::stub(std::string::ToString::to_string, stub_to_string)]
+    #[kani::stub(std::backtrace::Backtrace::capture, stub_backtrace_capture)]
+    #[kani::unwind(12)]
+    c10_factory_zeta8_be (thorough, "FactoryFuncCodeReader::new(Codes::Zeta param 8) over a reader factory, BE stream", "get() and inner() vs the code own method; symbolic value") => factory_be::<_, {ZETA}, 8>;
+    #[kani::stub(alloc::fmt::format, stub_format)]
+    #[kani::stub(std::string::ToString::to_string, stub_to_string)]
+    #[kani::stub(std::backtrace::Backtrace::capture, stub_backtrace_capture)]
+    #[kani::unwind(12)]
+    c10_factory_zeta8_le (thorough, "FactoryFuncCodeReader::new(Codes::Zeta param 8) over a reader factory, LE stream", "get() and inner() vs the code own method; symbolic value") => factory_le::<_, {ZETA}, 8>;
+    #[kani::stub(alloc::fmt::format, stub_format)]
+    #[kani::stub(std::string::ToString::to_string, stub_to_string)]
+    #[kani::stub(std::backtrace::Backtrace::capture, stub_backtrace_capture)]
+    #[kani::unwind(12)]
+    c10_factory_zeta9_be (thorough, "FactoryFuncCodeReader::new(Codes::Zeta param 9) over a reader factory, BE stream", "get() and inner() vs the code own method; symbolic value") => factory_be::<_, {ZETA}, 9>;
+    #[kani::stub(alloc::fmt::format, stub_format)]
+    #[kani::stub(std::string::ToString::to_string, stub_to_string)]
+    #[kani::stub(std::backtrace::Backtrace::capture, stub_backtrace_capture)]
+    #[kani::unwind(12)]
+    c10_factory_zeta9_le (thorough, "FactoryFuncCodeReader::new(Codes::Zeta param 9) over a reader factory, LE stream", "get() and inner() vs the code own method; symbolic value") => factory_le::<_, {ZETA}, 9>;
+    #[kani::stub(alloc::fmt::format, stub_format)]
+    #[kani::stub(std::string::ToString::to_string, stub_to_string)]
+    #[kani::stub(std::backtrace::Backtrace::capture, stub_backtrace_capture)]
+    #[kani::unwind(12)]
+    c10_factory_zeta10_be (thorough, "FactoryFuncCodeReader::new(Codes::Zeta param 10) over a reader factory, BE stream", "get() and inner() vs the code own method; symbolic value") => factory_be::<_, {ZETA}, 10>;
+    #[kani::stub(alloc::fmt::format, stub_format)]
+    #[kani::stub(std::string::ToString::to_string, stub_to_string)]
+    #[kani::stub(std::backtrace::Backtrace::capture, stub_backtrace_capture)]
+    #[kani::unwind(12)]
+    c10_factory_zeta10_le (thorough, "FactoryFuncCodeReader::new(Codes::Zeta param 10) over a reader factory, LE stream", "get() and inner() vs the code own method; symbolic value") => factory_le::<_, {ZETA}, 10>;
+    #[kani::stub(alloc::fmt::format, stub_format)]
+    #[kani::stub(std::string::ToString::to_string, stub_to_string)]
+    #[kani::stub(std::backtrace::Backtrace::capture, stub_backtrace_capture)]
+    #[kani::unwind(12)]
+    c10_factory_pi0_be (quick, "FactoryFuncCodeReader::new(Codes::Pi param 0) over a reader factory, BE stream", "get() and inner() vs the code own method; symbolic value") => factory_be::<_, {PI}, 0>;
+    #[kani::stub(alloc::fmt::format, stub_format)]
+    #[kani::stub(std::string::ToString::to_string, stub_to_string)]
+    #[kani::stub(std::backtrace::Backtrace::capture, stub_backtrace_capture)]
+    #[kani::unwind(12)]
+    c10_factory_pi0_le (thorough, "FactoryFuncCodeReader::new(Codes::Pi param 0) over a reader factory, LE stream", "get() and inner() vs the code own method; symbolic value") => factory_le::<_, {PI}, 0>;
+    #[kani::stub(alloc::fmt::format, stub_format)]
+    #[kani::stub(std::string::ToString::to_string, stub_to_string)]
+    #[kani::stub(std::backtrace::Backtrace::capture, stub_backtrace_capture)]
+    #[kani::unwind(12)]
+    c10_factory_pi1_be (quick, "FactoryFuncCodeReader::new(Codes::Pi param 1) over a reader factory, BE stream", "get() and inner() vs the code own method; symbolic value") => factory_be::<_, {PI}, 1>;
+    #[kani::stub(alloc::fmt::format, stub_format)]
+    #[kani::stub(std::string::ToString::to_string, stub_to_string)]
+    #[kani::stub(std::backtrace::Backtrace::capture, stub_backtrace_capture)]
+    #[kani::unwind(12)]
+    c10_factory_pi1_le (thorough, "FactoryFuncCodeReader::new(Codes::Pi param 1) over a reader factory, LE stream", "get() and inner() vs the code own method; symbolic value") => factory_le::<_, {PI}, 1>;
+    #[kani::stub(alloc::fmt::format, stub_format)]
+    #[kani::stub(std::string::ToString::to_string, stub_to_string)]
+    #[kani::stub(std::backtrace::Backtrace::capture, stub_backtrace_capture)]
+    #[kani::unwind(12)]
+    c10_factory_pi2_be (thorough, "FactoryFuncCodeReader::new(Codes::Pi param 2) over a reader factory, BE stream", "get() and inner() vs the code own method; symbolic value") => factory_be::<_, {PI}, 2>;
+    #[kani::stub(alloc::fmt::format, stub_format)]
+    #[kani::stub(std::string::ToString::to_string, stub_to_string)]
+    #[kani::stub(std::backtrace::Backtrace::capture, stub_backtrace_capture)]
+    #[kani::unwind(12)]
+    c10_factory_pi2_le (thorough, "FactoryFuncCodeReader::new(Codes::Pi param 2) over a reader factory, LE stream", "get() and inner() vs the code own method; symbolic value") => factory_le::<_, {PI}, 2>;
+    #[kani::stub(alloc::fmt::format, stub_format)]
+    #[kani::stub(std::string::ToString::to_string, stub_to_string)]
+    #[kani::stub(std::backtrace::Backtrace::capture, stub_backtrace_capture)]
+    #[kani::unwind(12)]
+    c10_factory_pi3_be (thorough, "FactoryFuncCodeReader::new(Codes::Pi param 3) over a reader factory, BE stream", "get() and inner() vs the code own method; symbolic value") => factory_be::<_, {PI}, 3>;
+    #[kani::stub(alloc::fmt::format, stub_format)]
+    #[kani::stub(std::string::ToString::to_string, stub_to_string)]
+    #[kani::stub(std::backtrace::Backtrace::capture, stub_backtrace_capture)]
+    #[kani::unwind(12)]
+    c10_factory_pi3_le (thorough, "FactoryFuncCodeReader::new(Codes::Pi param 3) over a reader factory, LE stream", "get() and inner() vs the code own method; symbolic value") => factory_le::<_, {PI}, 3>;
+    #[kani::stub(alloc::fmt::format, stub_format)]
+    #[kani::stub(std::string::ToString::to_string, stub_to_string)]
+    #[kani::stub(std::backtrace::Backtrace::capture, stub_backtrace_capture)]
+    #[kani::unwind(12)]
+    c10_factory_pi4_be (thorough, "FactoryFuncCodeReader::new(Codes::Pi param 4) over a reader factory, BE stream", "get() and inner() vs the code own method; symbolic value") => factory_be::<_, {PI}, 4>;
+    #[kani::stub(alloc::fmt::format, stub_format)]
+    #[kani::stub(std::string::ToString::to_string, stub_to_string)]
+    #[kani::stub(std::backtrace::Backtrace::capture, stub_backtrace_capture)]
+    #[kani::unwind(12)]
+    c10_factory_pi4_le (thorough, "FactoryFuncCodeReader::new(Codes::Pi param 4) over a reader factory, LE stream", "get() and inner() vs the code own method; symbolic value") => factory_le::<_, {PI}, 4>;
+    #[kani::stub(alloc::fmt::format, stub_format)]
+    #[kani::stub(std::string::ToString::to_string, stub_to_string)]
+    #[kani::stub(std::backtrace::Backtrace::capture, stub_backtrace_capture)]
+    #[kani::unwind(12)]
+    c10_factory_pi5_be (thorough, "FactoryFuncCodeReader::new(Codes::Pi param 5) over a reader factory, BE stream", "get() and inner() vs the code own method; symbolic value") => factory_be::<_, {PI}, 5>;
+    #[kani::stub(alloc::fmt::format, stub_format)]
+    #[kani::stub(std::string::ToString::to_string, stub_to_string)]
+    #[kani::stub(std::backtrace::Backtrace::capture, stub_backtrace_capture)]
+    #[kani::unwind(12)]
+    c10_factory_pi5_le (thorough, "FactoryFuncCodeReader::new(Codes::Pi param 5) over a reader factory, LE stream", "get() and inner() vs the code own method; symbolic value") => factory_le::<_, {PI}, 5>;
+    #[kani::stub(alloc::fmt::format, stub_format)]
+    #[kani::stub(std::string::ToString::to_string, stub_to_string)]
+    #[kani::stub(std::backtrace::Backtrace::capture, stub_backtrace_capture)]
+    #[kani::unwind(12)]
+    c10_factory_pi6_be (thorough, "FactoryFuncCodeReader::new(Codes::Pi param 6) over a reader factory, BE stream", "get() and inner() vs the code own method; symbolic value") => factory_be::<_, {PI}, 6>;
+    #[kani::stub(alloc::fmt::format, stub_format)]
+    #[kani::stub(std::string::ToString::to_string, stub_to_string)]
+    #[kani::stub(std::backtrace::Backtrace::capture, stub_backtrace_capture)]
+    #[kani::unwind(12)]
+    c10_factory_pi6_le (thorough, "FactoryFuncCodeReader::new(Codes::Pi param 6) over a reader factory, LE stream", "get() and inner() vs the code own method; symbolic value") => factory_le::<_, {PI}, 6>;
+    #[kani::stub(alloc::fmt::format, stub_format)]
+    #[kani::stub(std::string::ToString::to_string, stub_to_string)]
+    #[kani::stub(std::backtrace::Backtrace::capture, stub_backtrace_capture)]
+    #[kani::unwind(12)]
+    c10_factory_pi7_be (thorough, "FactoryFuncCodeReader::new(Codes::Pi param 7) over a reader factory, BE stream", "get() and inner() vs the code own method; symbolic value") => factory_be::<_, {PI}, 7>;
+    #[kani::stub(alloc::fmt::format, stub_format)]
+    #[kani::stub(std::string::ToString::to_string, stub_to_string)]
+    #[kani::stub(std::backtrace::Backtrace::capture, stub_backtrace_capture)]
+    #[kani::unwind(12)]
+    c10_factory_pi7_le (thorough, "FactoryFuncCodeReader::new(Codes::Pi param 7) over a reader factory, LE stream", "get() and inner() vs the code own method; symbolic value") => factory_le::<_, {PI}, 7>;
+    #[kani::stub(alloc::fmt::format, stub_format)]
+    #[kani::stub(std::string::ToString::to_string, stub_to_string)]
+    #[kani::stub(std::backtrace::Backtrace::capture, stub_backtrace_capture)]
+    #[kani::unwind(12)]
+    c10_factory_pi8_be (thorough, "FactoryFuncCodeReader::new(Codes::Pi param 8) over a reader factory, BE stream", "get() and inner() vs the code own method; symbolic value") => factory_be::<_, {PI}, 8>;
+    #[kani::stub(alloc::fmt::format, stub_format)]
+    #[kani::stub(std::string::ToString::to_string, stub_to_string)]
+    #[kani::stub(std::backtrace::Backtrace::capture, stub_backtrace_capture)]
+    #[kani::unwind(12)]
+    c10_factory_pi8_le (thorough, "FactoryFuncCodeReader::new(Codes::Pi param 8) over a reader factory, LE stream", "get() and inner() vs the code own method; symbolic value") => factory_le::<_, {PI}, 8>;
+    #[kani::stub(alloc::fmt::format, stub_format)]
+    #[kani::stub(std::string::ToString::to_string, stub_to_string)]
+    #[kani::stub(std::backtrace::Backtrace::capture, stub_backtrace_capture)]
+    #[kani::unwind(12)]
+    c10_factory_pi9_be (thorough, "FactoryFuncCodeReader::new(Codes::Pi param 9) over a reader factory, BE stream", "get() and inner() vs the code own method; symbolic value") => factory_be::<_, {PI}, 9>;
+    #[kani::stub(alloc::fmt::format, stub_format)]
+    #[kani::stub(std::string::ToString::to_string, stub_to_string)]
+    #[kani::stub(std::backtrace::Backtrace::capture, stub_backtrace_capture)]
+    #[kani::unwind(12)]
+    c10_factory_pi9_le (thorough, "FactoryFuncCodeReader::new(Codes::Pi param 9) over a reader factory, LE stream", "get() and inner() vs the code own method; symbolic value") => factory_le::<_, {PI}, 9>;
+    #[kani::stub(alloc::fmt::format, stub_format)]
+    #[kani::stub(std::string::ToString::to_string, stub_to_string)]
+    #[kani::stub(std::backtrace::Backtrace::capture, stub_backtrace_capture)]
+    #[kani::unwind(12)]
+    c10_factory_pi10_be (thorough, "FactoryFuncCodeReader::new(Codes::Pi param 10) over a reader factory, BE stream", "get() and inner() vs the code own method; symbolic value") => factory_be::<_, {PI}, 10>;
+    #[kani::stub(alloc::fmt::format, stub_format)]
+    #[kani::stub(std::string::ToString::to_string, stub_to_string)]
+    #[kani::stub(std::backtrace::Backtrace::capture, stub_backtrace_capture)]
+    #[kani::unwind(12)]
+    c10_factory_pi10_le (thorough, "FactoryFuncCodeReader::new(Codes::Pi param 10) over a reader factory, LE stream", "get() and inner() vs the code own method; symbolic value") => factory_le::<_, {PI}, 10>;
+    #[kani::stub(alloc::fmt::format, stub_format)]
+    #[kani::stub(std::string::ToString::to_string, stub_to_string)]
+    #[kani::stub(std::backtrace::Backtrace::capture, stub_backtrace_capture)]
+    #[kani::unwind(12)]
+    c10_factory_golomb1_be (quick, "FactoryFuncCodeReader::new(Codes::Golomb param 1) over a reader factory, BE stream", "get() and inner() vs the code own method; symbolic value") => factory_be::<_, {GOLOMB}, 1>;
+    #[kani::stub(alloc::fmt::format, stub_format)]
+    #[kani::stub(std::string::ToString::to_string, stub_to_string)]
+    #[kani::stub(std::backtrace::Backtrace::capture, stub_backtrace_capture)]
+    #[kani::unwind(12)]
+    c10_factory_golomb1_le (thorough, "FactoryFuncCodeReader::new(Codes::Golomb param 1) over a reader factory, LE stream", "get() and inner() vs the code own method; symbolic value") => factory_le::<_, {GOLOMB}, 1>;
+    #[kani::stub(alloc::fmt::format, stub_format)]
+    #[kani::stub(std::string::ToString::to_string, stub_to_string)]
+    #[kani::stub(std::backtrace::Backtrace::capture, stub_backtrace_capture)]
+    #[kani::unwind(12)]
+    c10_factory_golomb2_be (quick, "FactoryFuncCodeReader::new(Codes::Golomb param 2) over a reader factory, BE stream", "get() and inner() vs the code own method; symbolic value") => factory_be::<_, {GOLOMB}, 2>;
+    #[kani::stub(alloc::fmt::format, stub_format)]
+    #[kani::stub(std::string::ToString::to_string, stub_to_string)]
+    #[kani::stub(std::backtrace::Backtrace::capture, stub_backtrace_capture)]
+    #[kani::unwind(12)]
+    c10_factory_golomb2_le (thorough, "FactoryFuncCodeReader::new(Codes::Golomb param 2) over a reader factory, LE stream", "get() and inner() vs the code own method; symbolic value") => factory_le::<_, {GOLOMB}, 2>;
+    #[kani::stub(alloc::fmt::format, stub_format)]
+    #[kani::stub(std::string::ToString::to_string, stub_to_string)]
+    #[kani::stub(std::backtrace::Backtrace::capture, stub_backtrace_capture)]
+    #[kani::unwind(12)]
+    c10_factory_golomb3_be (thorough, "FactoryFuncCodeReader::new(Codes::Golomb param 3) over a reader factory, BE stream", "get() and inner() vs the code own method; symbolic value") => factory_be::<_, {GOLOMB}, 3>;
+    #[kani::stub(alloc::fmt::format, stub_format)]
+    #[kani::stub(std::string::ToString::to_string, stub_to_string)]
+    #[kani::stub(std::backtrace::Backtrace::capture, stub_backtrace_capture)]
+    #[kani::unwind(12)]
+    c10_factory_golomb3_le (thorough, "FactoryFuncCodeReader::new(Codes::Golomb param 3) over a reader factory, LE stream", "get() and inner() vs the code own method; symbolic value") => factory_le::<_, {GOLOMB}, 3>;
+    #[kani::stub(alloc::fmt::format, stub_format)]
+    #[kani::stub(std::string::ToString::to_string, stub_to_string)]
+    #[kani::stub(std::backtrace::Backtrace::capture, stub_backtrace_capture)]
+    #[kani::unwind(12)]
+    c10_factory_golomb4_be (quick, "FactoryFuncCodeReader::new(Codes::Golomb param 4) over a reader factory, BE stream", "get() and inner() vs the code own method; symbolic value") => factory_be::<_, {GOLOMB}, 4>;
+    #[kani::stub(alloc::fmt::format, stub_format)]
+    #[kani::stub(std::string::ToString::to_string, stub_to_string)]
+    #[kani::stub(std::backtrace::Backtrace::capture, stub_backtrace_capture)]
+    #[kani::unwind(12)]
+    c10_factory_golomb4_le (thorough, "FactoryFuncCodeReader::new(Codes::Golomb param 4) over a reader factory, LE stream", "get() and inner() vs the code own method; symbolic value") => factory_le::<_, {GOLOMB}, 4>;
+    #[kani::stub(alloc::fmt::format, stub_format)]
+    #[kani::stub(std::string::ToString::to_string, stub_to_string)]
+    #[kani::stub(std::backtrace::Backtrace::capture, stub_backtrace_capture)]
+    #[kani::unwind(12)]
+    c10_factory_golomb5_be (thorough, "FactoryFuncCodeReader::new(Codes::Golomb param 5) over a reader factory, BE stream", "get() and inner() vs the code own method; symbolic value") => factory_be::<_, {GOLOMB}, 5>;
+    #[kani::stub(alloc::fmt::format, stub_format)]
+    #[kani::stub(std::string::ToString::to_string, stub_to_string)]
+    #[kani::stub(std::backtrace::Backtrace::capture, stub_backtrace_capture)]
+    #[kani::unwind(12)]
+    c10_factory_golomb5_le (thorough, "FactoryFuncCodeReader::new(Codes::Golomb param 5) over a reader factory, LE stream", "get() and inner() vs the code own method; symbolic value") => factory_le::<_, {GOLOMB}, 5>;
+    #[kani::stub(alloc::fmt::format, stub_format)]
+    #[kani::stub(std::string::ToString::to_string, stub_to_string)]
+    #[kani::stub(std::backtrace::Backtrace::capture, stub_backtrace_capture)]
+    #[kani::unwind(12)]
+    c10_factory_golomb6_be (thorough, "FactoryFuncCodeReader::new(Codes::Golomb param 6) over a reader factory, BE stream", "get() and inner() vs the code own method; symbolic value") => factory_be::<_, {GOLOMB}, 6>;
+    #[kani::stub(alloc::fmt::format, stub_format)]
+    #[kani::stub(std::string::ToString::to_string, stub_to_string)]
+    #[kani::stub(std::backtrace::Backtrace::capture, stub_backtrace_capture)]
+    #[kani::unwind(12)]
+    c10_factory_golomb6_le (thorough, "FactoryFuncCodeReader::new(Codes::Golomb param 6) over a reader factory, LE stream", "get() and inner() vs the code own method; symbolic value") => factory_le::<_, {GOLOMB}, 6>;
+    #[kani::stub(alloc::fmt::format, stub_format)]
+    #[kani::stub(std::string::ToString::to_string, stub_to_string)]
+    #[kani::stub(std::backtrace::Backtrace::capture, stub_backtrace_capture)]
+    #[kani::unwind(12)]
+    c10_factory_golomb7_be (quick, "FactoryFuncCodeReader::new(Codes::Golomb param 7) over a reader factory, BE stream", "get() and inner() vs the code own method; symbolic value") => factory_be::<_, {GOLOMB}, 7>;
+    #[kani::stub(alloc::fmt::format, stub_format)]
+    #[kani::stub(std::string::ToString::to_string, stub_to_string)]
+    #[kani::stub(std::backtrace::Backtrace::capture, stub_backtrace_capture)]
+    #[kani::unwind(12)]
+    c10_factory_golomb7_le (thorough, "FactoryFuncCodeReader::new(Codes::Golomb param 7) over a reader factory, LE stream", "get() and inner() vs the code own method; symbolic value") => factory_le::<_, {GOLOMB}, 7>;
+    #[kani::stub(alloc::fmt::format, stub_format)]
+    #[kani::stub(std::string::ToString::to_string, stub_to_string)]
+    #[kani::stub(std::backtrace::Backtrace::capture, stub_backtrace_capture)]
+    #[kani::unwind(12)]
+    c10_factory_golomb8_be (quick, "FactoryFuncCodeReader::new(Codes::Golomb param 8) over a reader factory, BE stream", "get() and inner() vs the code own method; symbolic value") => factory_be::<_, {GOLOMB}, 8>;
+    #[kani::stub(alloc::fmt::format, stub_format)]
+    #[kani::stub(std::string::ToString::to_string, stub_to_string)]
+    #[kani::stub(std::backtrace::Backtrace::capture, stub_backtrace_capture)]
+    #[kani::unwind(12)]
+    c10_factory_golomb8_le (thorough, "FactoryFuncCodeReader::new(Codes::Golomb param 8) over a reader factory, LE stream", "get() and inner() vs the code own method; symbolic value") => factory_le::<_, {GOLOMB}, 8>;
+    #[kani::stub(alloc::fmt::format, stub_format)]
+    #[kani::stub(std::string::ToString::to_string, stub_to_string)]
+    #[kani::stub(std::backtrace::Backtrace::capture, stub_backtrace_capture)]
+    #[kani::unwind(12)]
+    c10_factory_golomb9_be (thorough, "FactoryFuncCodeReader::new(Codes::Golomb param 9) over a reader factory, BE stream", "get() and inner() vs the code own method; symbolic value") => factory_be::<_, {GOLOMB}, 9>;
+    #[kani::stub(alloc::fmt::format, stub_format)]
+    #[kani::stub(std::string::ToString::to_string, stub_to_string)]
+    #[kani::stub(std::backtrace::Backtrace::capture, stub_backtrace_capture)]
+    #[kani::unwind(12)]
+    c10_factory_golomb9_le (thorough, "FactoryFuncCodeReader::new(Codes::Golomb param 9) over a reader factory, LE stream", "get() and inner() vs the code own method; symbolic value") => factory_le::<_, {GOLOMB}, 9>;
+    #[kani::stub(alloc::fmt::format, stub_format)]
+    #[kani::stub(std::string::ToString::to_string, stub_to_string)]
+    #[kani::stub(std::backtrace::Backtrace::capture, stub_backtrace_capture)]
+    #[kani::unwind(12)]
+    c10_factory_golomb10_be (thorough, "FactoryFuncCodeReader::new(Codes::Golomb param 10) over a reader factory, BE stream", "get() and inner() vs the code own method; symbolic value") => factory_be::<_, {GOLOMB}, 10>;
+    #[kani::stub(alloc::fmt::format, stub_format)]
+    #[kani::stub(std::string::ToString::to_string, stub_to_string)]
+    #[kani::stub(std::backtrace::Backtrace::capture, stub_backtrace_capture)]
+    #[kani::unwind(12)]
+    c10_factory_golomb10_le (thorough, "FactoryFuncCodeReader::new(Codes::Golomb param 10) over a reader factory, LE stream", "get() and inner() vs the code own method; symbolic value") => factory_le::<_, {GOLOMB}, 10>;
+    #[kani::stub(alloc::fmt::format, stub_format)]
+    #[kani::stub(std::string::ToString::to_string, stub_to_string)]
+    #[kani::stub(std::backtrace::Backtrace::capture, stub_backtrace_capture)]
+    #[kani::unwind(12)]
+    c10_factory_exp_golomb0_be (quick, "FactoryFuncCodeReader::new(Codes::ExpGolomb param 0) over a reader factory, BE stream", "get() and inner() vs the code own method; symbolic value") => factory_be::<_, {EXP_GOLOMB}, 0>;
+    #[kani::stub(alloc::fmt::format, stub_format)]
+    #[kani::stub(std::string::ToString::to_string, stub_to_string)]
+    #[kani::stub(std::backtrace::Backtrace::capture, stub_backtrace_capture)]
+    #[kani::unwind(12)]
+    c10_factory_exp_golomb0_le (thorough, "FactoryFuncCodeReader::new(Codes::ExpGolomb param 0) over a reader factory, LE stream", "get() and inner() vs the code own method; symbolic value") => factory_le::<_, {EXP_GOLOMB}, 0>;
+    #[kani::stub(alloc::fmt::format, stub_format)]
+    #[kani::stub(std::string::ToString::to_string, stub_to_string)]
+    #[kani::stub(std::backtrace::Backtrace::capture, stub_backtrace_capture)]
+    #[kani::unwind(12)]
+    c10_factory_exp_golomb1_be (thorough, "FactoryFuncCodeReader::new(Codes::ExpGolomb param 1) over a reader factory, BE stream", "get() and inner() vs the code own method; symbolic value") => factory_be::<_, {EXP_GOLOMB}, 1>;
+    #[kani::stub(alloc::fmt::format, stub_format)]
+    #[kani::stub(std::string::ToString::to_string, stub_to_string)]
+    #[kani::stub(std::backtrace::Backtrace::capture, stub_backtrace_capture)]
+    #[kani::unwind(12)]
+    c10_factory_exp_golomb1_le (thorough, "FactoryFuncCodeReader::new(Codes::ExpGolomb param 1) over a reader factory, LE stream", "get() and inner() vs the code own method; symbolic value") => factory_le::<_, {EXP_GOLOMB}, 1>;
+    #[kani::stub(alloc::fmt::format, stub_format)]
+    #[kani::stub(std::string::ToString::to_string, stub_to_string)]
+    #[kani::stub(std::backtrace::Backtrace::capture, stub_backtrace_capture)]
+    #[kani::unwind(12)]
+    c10_factory_exp_golomb2_be (thorough, "FactoryFuncCodeReader::new(Codes::ExpGolomb param 2) over a reader factory, BE stream", "get() and inner() vs the code own method; symbolic value") => factory_be::<_, {EXP_GOLOMB}, 2>;
+    #[kani::stub(alloc::fmt::format, stub_format)]
+    #[kani::stub(std::string::ToString::to_string, stub_to_string)]
+    #[kani::stub(std::backtrace::Backtrace::capture, stub_backtrace_capture)]
+    #[kani::unwind(12)]
+    c10_factory_exp_golomb2_le (thorough, "FactoryFuncCodeReader::new(Codes::ExpGolomb param 2) over a reader factory, LE stream", "get() and inner() vs the code own method; symbolic value") => factory_le::<_, {EXP_GOLOMB}, 2>;
+    #[kani::stub(alloc::fmt::format, stub_format)]
+    #[kani::stub(std::string::ToString::to_string, stub_to_string)]
+    #[kani::stub(std::backtrace::Backtrace::capture, stub_backtrace_capture)]
+    #[kani::unwind(12)]
+    c10_factory_exp_golomb3_be (quick, "FactoryFuncCodeReader::new(Codes::ExpGolomb param 3) over a reader factory, BE stream", "get() and inner() vs the code own method; symbolic value") => factory_be::<_, {EXP_GOLOMB}, 3>;
+    #[kani::stub(alloc::fmt::format, stub_format)]
+    #[kani::stub(std::string::ToString::to_string, stub_to_string)]
+    #[kani::stub(std::backtrace::Backtrace::capture, stub_backtrace_capture)]
+    #[kani::unwind(12)]
+    c10_factory_exp_golomb3_le (thorough, "FactoryFuncCodeReader::new(Codes::ExpGolomb param 3) over a reader factory, LE stream", "get() and inner() vs the code own method; symbolic value") => factory_le::<_, {EXP_GOLOMB}, 3>;
+    #[kani::stub(alloc::fmt::format, stub_format)]
+    #[kani::stub(std::string::ToString::to_string, stub_to_string)]
+    #[kani::stub(std::backtrace::Backtrace::capture, stub_backtrace_capture)]
+    #[kani::unwind(12)]
+    c10_factory_exp_golomb4_be (thorough, "FactoryFuncCodeReader::new(Codes::ExpGolomb param 4) over a reader factory, BE stream", "get() and inner() vs the code own method; symbolic value") => factory_be::<_, {EXP_GOLOMB}, 4>;
+    #[kani::stub(alloc::fmt::format, stub_format)]
+    #[kani::stub(std::string::ToString::to_string, stub_to_string)]
+    #[kani::stub(std::backtrace::Backtrace::capture, stub_backtrace_capture)]
+    #[kani::unwind(12)]
+    c10_factory_exp_golomb4_le (thorough, "FactoryFuncCodeReader::new(Codes::ExpGolomb param 4) over a reader factory, LE stream", "get() and inner() vs the code own method; symbolic value") => factory_le::<_, {EXP_GOLOMB}, 4>;
+    #[kani::stub(alloc::fmt::format, stub_format)]
+    #[kani::stub(std::string::ToString::to_string, stub_to_string)]
+    #[kani::stub(std::backtrace::Backtrace::capture, stub_backtrace_capture)]
+    #[kani::unwind(12)]
+    c10_factory_exp_golomb5_be (thorough, "FactoryFuncCodeReader::new(Codes::ExpGolomb param 5) over a reader factory, BE stream", "get() and inner() vs the code own method; symbolic value") => factory_be::<_, {EXP_GOLOMB}, 5>;
+    #[kani::stub(alloc::fmt::format, stub_format)]
+    #[kani::stub(std::string::ToString::to_string, stub_to_string)]
+    #[kani::stub(std::backtrace::Backtrace::capture, stub_backtrace_capture)]
+    #[kani::unwind(12)]
+    c10_factory_exp_golomb5_le (thorough, "FactoryFuncCodeReader::new(Codes::ExpGolomb param 5) over a reader factory, LE stream", "get() and inner() vs the code own method; symbolic value") => factory_le::<_, {EXP_GOLOMB}, 5>;
+    #[kani::stub(alloc::fmt::format, stub_format)]
+    #[kani::stub(std::string::ToString::to_string, stub_to_string)]
+    #[kani::stub(std::backtrace::Backtrace::capture, stub_backtrace_capture)]
+    #[kani::unwind(12)]
+    c10_factory_exp_golomb6_be (thorough, "FactoryFuncCodeReader::new(Codes::ExpGolomb param 6) over a reader factory, BE stream", "get() and inner() vs the code own method; symbolic value") => factory_be::<_, {EXP_GOLOMB}, 6>;
+    #[kani::stub(alloc::fmt::format, stub_format)]
+    #[kani::stub(std::string::ToString::to_string, stub_to_string)]
+    #[kani::stub(std::backtrace::Backtrace::capture, stub_backtrace_capture)]
+    #[kani::unwind(12)]
+    c10_factory_exp_golomb6_le (thorough, "FactoryFuncCodeReader::new(Codes::ExpGolomb param 6) over a reader factory, LE stream", "get() and inner() vs the code own method; symbolic value") => factory_le::<_, {EXP_GOLOMB}, 6>;
+    #[kani::stub(alloc::fmt::format, stub_format)]
+    #[kani::stub(std::string::ToString::to_string, stub_to_string)]
+    #[kani::stub(std::backtrace::Backtrace::capture, stub_backtrace_capture)]
+    #[kani::unwind(12)]
+    c10_factory_exp_golomb7_be (thorough, "FactoryFuncCodeReader::new(Codes::ExpGolomb param 7) over a reader factory, BE stream", "get() and inner() vs the code own method; symbolic value") => factory_be::<_, {EXP_GOLOMB}, 7>;
+    #[kani::stub(alloc::fmt::format, stub_format)]
+    #[kani::stub(std::string::ToString::to_string, stub_to_string)]
+    #[kani::stub(std::backtrace::Backtrace::capture, stub_backtrace_capture)]
+    #[kani::unwind(12)]
+    c10_factory_exp_golomb7_le (thorough, "FactoryFuncCodeReader::new(Codes::ExpGolomb param 7) over a reader factory, LE stream", "get() and inner() vs the code own method; symbolic value") => factory_le::<_, {EXP_GOLOMB}, 7>;
+    #[kani::stub(alloc::fmt::format, stub_format)]
+    #[kani::stub(std::string::ToString::to_string, stub_to_string)]
+    #[kani::stub(std::backtrace::Backtrace::capture, stub_backtrace_capture)]
+    #[kani::unwind(12)]
+    c10_factory_exp_golomb8_be (thorough, "FactoryFuncCodeReader::new(Codes::ExpGolomb param 8) over a reader factory, BE stream", "get() and inner() vs the code own method; symbolic value") => factory_be::<_, {EXP_GOLOMB}, 8>;
+    #[kani::stub(alloc::fmt::format, stub_format)]
+    #[kani::stub(std::string::ToString::to_string, stub_to_string)]
+    #[kani::stub(std::backtrace::Backtrace::capture, stub_backtrace_capture)]
+    #[kani::unwind(12)]
+    c10_factory_exp_golomb8_le (thorough, "FactoryFuncCodeReader::new(Codes::ExpGolomb param 8) over a reader factory, LE stream", "get() and inner() vs the code own method; symbolic value") => factory_le::<_, {EXP_GOLOMB}, 8>;
+    #[kani::stub(alloc::fmt::format, stub_format)]
+    #[kani::stub(std::string::ToString::to_string, stub_to_string)]
+    #[kani::stub(std::backtrace::Backtrace::capture, stub_backtrace_capture)]
+    #[kani::unwind(12)]
+    c10_factory_exp_golomb9_be (thorough, "FactoryFuncCodeReader::new(Codes::ExpGolomb param 9) over a reader factory, BE stream", "get() and inner() vs the code own method; symbolic value") => factory_be::<_, {EXP_GOLOMB}, 9>;
+    #[kani::stub(alloc::fmt::format, stub_format)]
+    #[kani::stub(std::string::ToString::to_string, stub_to_string)]
+    #[kani::stub(std::backtrace::Backtrace::capture, stub_backtrace_capture)]
+    #[kani::unwind(12)]
+    c10_factory_exp_golomb9_le (thorough, "FactoryFuncCodeReader::new(Codes::ExpGolomb param 9) over a reader factory, LE stream", "get() and inner() vs the code own method; symbolic value") => factory_le::<_, {EXP_GOLOMB}, 9>;
+    #[kani::stub(alloc::fmt::format, stub_format)]
+    #[kani::stub(std::string::ToString::to_string, stub_to_string)]
+    #[kani::stub(std::backtrace::Backtrace::capture, stub_backtrace_capture)]
+    #[kani::unwind(12)]
+    c10_factory_exp_golomb10_be (thorough, "FactoryFuncCodeReader::new(Codes::ExpGolomb param 10) over a reader factory, BE stream", "get() and inner() vs the code own method; symbolic value") => factory_be::<_, {EXP_GOLOMB}, 10>;
+    #[kani::stub(alloc::fmt::format, stub_format)]
+    #[kani::stub(std::string::ToString::to_string, stub_to_string)]
+    #[kani::stub(std::backtrace::Backtrace::capture, stub_backtrace_capture)]
+    #[kani::unwind(12)]
+    c10_factory_exp_golomb10_le (thorough, "FactoryFuncCodeReader::new(Codes::ExpGolomb param 10) over a reader factory, LE stream", "get() and inner() vs the code own method; symbolic value") => factory_le::<_, {EXP_GOLOMB}, 10>;
+    #[kani::stub(alloc::fmt::format, stub_format)]
+    #[kani::stub(std::string::ToString::to_string, stub_to_string)]
+    #[kani::stub(std::backtrace::Backtrace::capture, stub_backtrace_capture)]
+    #[kani::unwind(12)]
+    c10_factory_rice0_be (quick, "FactoryFuncCodeReader::new(Codes::Rice param 0) over a reader factory, BE stream", "get() and inner() vs the code own method; symbolic value") => factory_be::<_, {RICE}, 0>;
+    #[kani::stub(alloc::fmt::format, stub_format)]
+    #[kani::stub(std::string::ToString::to_string, stub_to_string)]
+    #[kani::stub(std::backtrace::Backtrace::capture, stub_backtrace_capture)]
+    #[kani::unwind(12)]
+    c10_factory_rice0_le (thorough, "FactoryFuncCodeReader::new(Codes::Rice param 0) over a reader factory, LE stream", "get() and inner() vs the code own method; symbolic value") => factory_le::<_, {RICE}, 0>;
+    #[kani::stub(alloc::fmt::format, stub_format)]
+    #[kani::stub(std::string::ToString::to_string, stub_to_string)]
+    #[kani::stub(std::backtrace::Backtrace::capture, stub_backtrace_capture)]
+    #[kani::unwind(12)]
+    c10_factory_rice1_be (thorough, "FactoryFuncCodeReader::new(Codes::Rice param 1) over a reader factory, BE stream", "get() and inner() vs the code own method; symbolic value") => factory_be::<_, {RICE}, 1>;
+    #[kani::stub(alloc::fmt::format, stub_format)]
+    #[kani::stub(std::string::ToString::to_string, stub_to_string)]
+    #[kani::stub(std::backtrace::Backtrace::capture, stub_backtrace_capture)]
+    #[kani::unwind(12)]
+    c10_factory_rice1_le (thorough, "FactoryFuncCodeReader::new(Codes::Rice param 1) over a reader factory, LE stream", "get() and inner() vs the code own method; symbolic value") => factory_le::<_, {RICE}, 1>;
+    #[kani::stub(alloc::fmt::format, stub_format)]
+    #[kani::stub(std::string::ToString::to_string, stub_to_string)]
+    #[kani::stub(std::backtrace::Backtrace::capture, stub_backtrace_capture)]
+    #[kani::unwind(12)]
+    c10_factory_rice2_be (thorough, "FactoryFuncCodeReader::new(Codes::Rice param 2) over a reader factory, BE stream", "get() and inner() vs the code own method; symbolic value") => factory_be::<_, {RICE}, 2>;
+    #[kani::stub(alloc::fmt::format, stub_format)]
+    #[kani::stub(std::string::ToString::to_string, stub_to_string)]
+    #[kani::stub(std::backtrace::Backtrace::capture, stub_backtrace_capture)]
+    #[kani::unwind(12)]
+    c10_factory_rice2_le (thorough, "FactoryFuncCodeReader::new(Codes::Rice param 2) over a reader factory, LE stream", "get() and inner() vs the code own method; symbolic value") => factory_le::<_, {RICE}, 2>;
+    #[kani::stub(alloc::fmt::format, stub_format)]
+    #[kani::stub(std::string::ToString::to_string, stub_to_string)]
+    #[kani::stub(std::backtrace::Backtrace::capture, stub_backtrace_capture)]
+    #[kani::unwind(12)]
+    c10_factory_rice3_be (thorough, "FactoryFuncCodeReader::new(Codes::Rice param 3) over a reader factory, BE stream", "get() and inner() vs the code own method; symbolic value") => factory_be::<_, {RICE}, 3>;
+    #[kani::stub(alloc::fmt::format, stub_format)]
+    #[kani::stub(std::string::ToString::to_string, stub_to_string)]
+    #[kani::stub(std::backtrace::Backtrace::capture, stub_backtrace_capture)]
+    #[kani::unwind(12)]
+    c10_factory_rice3_le (thorough, "FactoryFuncCodeReader::new(Codes::Rice param 3) over a reader factory, LE stream", "get() and inner() vs the code own method; symbolic value") => factory_le::<_, {RICE}, 3>;
+    #[kani::stub(alloc::fmt::format, stub_format)]
+    #[kani::stub(std::string::ToString::to_string, stub_to_string)]
+    #[kani::stub(std::backtrace::Backtrace::capture, stub_backtrace_capture)]
+    #[kani::unwind(12)]
+    c10_factory_rice4_be (quick, "FactoryFuncCodeReader::new(Codes::Rice param 4) over a reader factory, BE stream", "get() and inner() vs the code own method; symbolic value") => factory_be::<_, {RICE}, 4>;
+    #[kani::stub(alloc::fmt::format, stub_format)]
+    #[kani::stub(std::string::ToString::to_string, stub_to_string)]
+    #[kani::stub(std::backtrace::Backtrace::capture, stub_backtrace_capture)]
+    #[kani::unwind(12)]
+    c10_factory_rice4_le (thorough, "FactoryFuncCodeReader::new(Codes::Rice param 4) over a reader factory, LE stream", "get() and inner() vs the code own method; symbolic value") => factory_le::<_, {RICE}, 4>;
+    #[kani::stub(alloc::fmt::format, stub_format)]
+    #[kani::stub(std::string::ToString::to_string, stub_to_string)]
+    #[kani::stub(std::backtrace::Backtrace::capture, stub_backtrace_capture)]
+    #[kani::unwind(12)]
+    c10_factory_rice5_be (thorough, "FactoryFuncCodeReader::new(Codes::Rice param 5) over a reader factory, BE stream", "get() and inner() vs the code own method; symbolic value") => factory_be::<_, {RICE}, 5>;
+    #[kani::stub(alloc::fmt::format, stub_format)]
+    #[kani::stub(std::string::ToString::to_string, stub_to_string)]
+    #[kani::stub(std::backtrace::Backtrace::capture, stub_backtrace_capture)]
+    #[kani::unwind(12)]
+    c10_factory_rice5_le (thorough, "FactoryFuncCodeReader::new(Codes::Rice param 5) over a reader factory, LE stream", "get() and inner() vs the code own method; symbolic value") => factory_le::<_, {RICE}, 5>;
+    #[kani::stub(alloc::fmt::format, stub_format)]
+    #[kani::stub(std::string::ToString::to_string, stub_to_string)]
+    #[kani::stub(std::backtrace::Backtrace::capture, stub_backtrace_capture)]
+    #[kani::unwind(12)]
+    c10_factory_rice6_be (thorough, "FactoryFuncCodeReader::new(Codes::Rice param 6) over a reader factory, BE stream", "get() and inner() vs the code own method; symbolic value") => factory_be::<_, {RICE}, 6>;
+    #[kani::stub(alloc::fmt::format, stub_format)]
+    #[kani::stub(std::string::ToString::to_string, stub_to_string)]
+    #[kani::stub(std::backtrace::Backtrace::capture, stub_backtrace_capture)]
+    #[kani::unwind(12)]
+    c10_factory_rice6_le (thorough, "FactoryFuncCodeReader::new(Codes::Rice param 6) over a reader factory, LE stream", "get() and inner() vs the code own method; symbolic value") => factory_le::<_, {RICE}, 6>;
+    #[kani::stub(alloc::fmt::format, stub_format)]
+    #[kani::stub(std::string::ToString::to_string, stub_to_string)]
+    #[kani::stub(std::backtrace::Backtrace::capture, stub_backtrace_capture)]
+    #[kani::unwind(12)]
+    c10_factory_rice7_be (thorough, "FactoryFuncCodeReader::new(Codes::Rice param 7) over a reader factory, BE stream", "get() and inner() vs the code own method; symbolic value") => factory_be::<_, {RICE}, 7>;
+    #[kani::stub(alloc::fmt::format, stub_format)]
+    #[kani::stub(std::string::ToString::to_string, stub_to_string)]
+    #[kani::stub(std::backtrace::Backtrace::capture, stub_backtrace_capture)]
+    #[kani::unwind(12)]
+    c10_factory_rice7_le (thorough, "FactoryFuncCodeReader::new(Codes::Rice param 7) over a reader factory, LE stream", "get() and inner() vs the code own method; symbolic value") => factory_le::<_, {RICE}, 7>;
+    #[kani::stub(alloc::fmt::format, stub_format)]
+    #[kani::stub(std::string::ToString::to_string, stub_to_string)]
+    #[kani::stub(std::backtrace::Backtrace::capture, stub_backtrace_capture)]
+    #[kani::unwind(12)]
+    c10_factory_rice8_be (thorough, "FactoryFuncCodeReader::new(Codes::Rice param 8) over a reader factory, BE stream", "get() and inner() vs the code own method; symbolic value") => factory_be::<_, {RICE}, 8>;
+    #[kani::stub(alloc::fmt::format, stub_format)]
+    #[kani::stub(std::string::ToString::to_string, stub_to_string)]
+    #[kani::stub(std::backtrace::Backtrace::capture, stub_backtrace_capture)]
+    #[kani::unwind(12)]
+    c10_factory_rice8_le (thorough, "FactoryFuncCodeReader::new(Codes::Rice param 8) over a reader factory, LE stream", "get() and inner() vs the code own method; symbolic value") => factory_le::<_, {RICE}, 8>;
+    #[kani::stub(alloc::fmt::format, stub_format)]
+    #[kani::stub(std::string::ToString::to_string, stub_to_string)]
+    #[kani::stub(std::backtrace::Backtrace::capture, stub_backtrace_capture)]
+    #[kani::unwind(12)]
+    c10_factory_rice9_be (thorough, "FactoryFuncCodeReader::new(Codes::Rice param 9) over a reader factory, BE stream", "get() and inner() vs the code own method; symbolic value") => factory_be::<_, {RICE}, 9>;
+    #[kani::stub(alloc::fmt::format, stub_format)]
+    #[kani::stub(std::string::ToString::to_string, stub_to_string)]
+    #[kani::stub(std::backtrace::Backtrace::capture, stub_backtrace_capture)]
+    #[kani::unwind(12)]
+    c10_factory_rice9_le (thorough, "FactoryFuncCodeReader::new(Codes::Rice param 9) over a reader factory, LE stream", "get() and inner() vs the code own method; symbolic value") => factory_le::<_, {RICE}, 9>;
+    #[kani::stub(alloc::fmt::format, stub_format)]
+    #[kani::stub(std::string::ToString::to_string, stub_to_string)]
+    #[kani::stub(std::backtrace::Backtrace::capture, stub_backtrace_capture)]
+    #[kani::unwind(12)]
+    c10_factory_rice10_be (thorough, "FactoryFuncCodeReader::new(Codes::Rice param 10) over a reader factory, BE stream", "get() and inner() vs the code own method; symbolic value") => factory_be::<_, {RICE}, 10>;
+    #[kani::stub(alloc::fmt::format, stub_format)]
+    #[kani::stub(std::string::ToString::to_string, stub_to_string)]
+    #[kani::stub(std::backtrace::Backtrace::capture, stub_backtrace_capture)]
+    #[kani::unwind(12)]
+    c10_factory_rice10_le (thorough, "FactoryFuncCodeReader::new(Codes::Rice param 10) over a reader factory, LE stream", "get() and inner() vs the code own method; symbolic value") => factory_le::<_, {RICE}, 10>;
 }
